@@ -198,8 +198,15 @@ func (r *reporter) TriggerCountDec(c int) {
 
 type hdrBuilder struct{ h string }
 
+// A header identity ending in "+" forwards three header names instead of one (the
+// resolver then has a map with several keys in its hands).
 func (b hdrBuilder) HeadersForSubgraph(string) (http.Header, uint64) {
-	return http.Header{"X-H": []string{b.h}}, vk.Hash("hdr:" + b.h)
+	h := http.Header{"X-H": []string{b.h}}
+	if strings.HasSuffix(b.h, "+") {
+		h["X-A"] = []string{"1"}
+		h["X-B"] = []string{"2"}
+	}
+	return h, vk.Hash("hdr:" + b.h)
 }
 func (b hdrBuilder) HashAll() uint64 { return vk.Hash("hdr:" + b.h) }
 
@@ -239,6 +246,7 @@ type inst struct {
 	keyStarts   map[string]int
 	caller      map[int64]*startRec // goroutine -> upstream whose Complete/Error call is running on it
 	startG      map[int64]*startRec // start-up goroutine -> the Start call it made
+	t0          time.Time           // (virtual) time at which the instance was built
 }
 
 func (in *inst) tickL() int { in.now++; return in.now }
@@ -537,6 +545,40 @@ func (in *inst) runProgram(st *startRec, prog []Step) {
 		in.mu.Unlock()
 	}()
 	for _, step := range prog {
+		if step.Op == "WHB" {
+			// the upstream goes on while a heartbeat write to one of the trigger's subscribers
+			// is in flight (or after one has been written): steers the source's next call
+			// next to a slow keep-alive write. With nothing else enabled the clock pseudo
+			// thread is the scheduler's only (free) choice, so the wait always ends.
+			if in.s != nil {
+				in.s.PointWhen(fmt.Sprintf("src%d:wait-for-heartbeat-write", st.n), func() bool {
+					in.mu.Lock()
+					defer in.mu.Unlock()
+					if in.aborted || st.ctx.Err() != nil {
+						return true
+					}
+					// every clock tick of the scenario is used up (virtual time): no heartbeat will come
+					if time.Since(in.t0) >= time.Duration(in.sc.Ticks)*hbInterval {
+						return true
+					}
+					for _, t := range in.subs {
+						if t.trig != st.trig {
+							continue
+						}
+						if t.w.busy == "Heartbeat" {
+							return true
+						}
+						for _, c := range t.w.calls {
+							if c.kind == "Heartbeat" {
+								return true
+							}
+						}
+					}
+					return false
+				})
+			}
+			continue
+		}
 		in.point(fmt.Sprintf("src%d:%s", st.n, step.label()))
 		if (st.ctx.Err() != nil && !in.sc.SourceIgnoresCtx) || in.isAborted() {
 			return // the upstream connection is gone; Done comes from the context callback
@@ -617,12 +659,11 @@ func (in *inst) srcCall(st *startRec, step Step) {
 	}
 	switch step.Op {
 	case "D":
-		// the source finished: every subscriber of its trigger is gone when Done returns
-		for _, t := range in.subs {
-			if t.trig == st.trig && t.subscribed {
-				t.setAPIRet("Done", ret)
-			}
-		}
+		// No writer is declared free here: when Done returns, a subscriber that some
+		// OTHER actor removed at the same time (e.g. its own unsubscribe, still waiting in
+		// done() for a write in flight) may not be closed yet, and the owner of a writer
+		// never observes the return of the source's Done. Writes after the source finished
+		// are judged against the close of the completed channel.
 	case "X":
 		if target.trig == st.trig && st.ctx.Err() == nil {
 			in.removedByCallL(target, "CloseSubscription", op.call, ret)
@@ -832,6 +873,7 @@ func (w *writer) Heartbeat() error {
 func newInst(sc *Scenario, s *sched.Sched) *inst {
 	in := &inst{sc: sc, s: s, byName: map[string]*subState{}, keyStarts: map[string]int{}, caller: map[int64]*startRec{}, startG: map[int64]*startRec{}}
 	in.rep = &reporter{in: in}
+	in.t0 = time.Now()
 	if sc.Hook {
 		in.ds = &hookDS{fakeDS{in}}
 	} else {
@@ -874,7 +916,9 @@ func (in *inst) removedByCallL(t *subState, kind string, call, ret int) {
 		// subscribed after the call returned: unaffected
 	case t.regRet != 0 && t.regRet < call && t.subscribed:
 		t.addCause(kind, call, ret)
-		t.setAPIRet(kind, ret)
+		if kind != "CloseSubscription" { // a call of the upstream, not of the writer's owner: see "D" in srcCall
+			t.setAPIRet(kind, ret)
+		}
 	case t.called && t.subErr != "":
 		// never registered
 	default:
@@ -979,14 +1023,27 @@ func (in *inst) unsubscribe(s *subState, kind string) {
 // waitAfter parks the caller until the subscriber got spec.After data messages
 // (or its subscription was completed).
 func (in *inst) waitAfter(s *subState) {
-	if s.spec.After <= 0 || in.s == nil {
+	if (s.spec.After <= 0 && !s.spec.AfterDone) || in.s == nil {
 		return
 	}
-	in.s.PointWhen(s.spec.Name+":after-message", func() bool {
+	label := s.spec.Name + ":after-message"
+	if s.spec.AfterDone {
+		label = s.spec.Name + ":after-source-Done-began"
+	}
+	in.s.PointWhen(label, func() bool {
 		in.mu.Lock()
 		defer in.mu.Unlock()
-		if in.aborted || s.w.flushed >= s.spec.After {
+		if in.aborted || (s.spec.After > 0 && s.w.flushed >= s.spec.After) {
 			return true
+		}
+		if s.spec.AfterDone && s.trig != nil {
+			for _, st := range s.trig.starts {
+				for _, op := range st.ops {
+					if op.op == "D" {
+						return true
+					}
+				}
+			}
 		}
 		if s.completed != nil && isClosed(s.completed) {
 			return true
